@@ -63,6 +63,9 @@ pub struct Env {
 }
 
 fn full_key(sc: &Scenario, op: &Op) -> String {
+    if matches!(op.kind, OpKind::ParseFree) {
+        return format!("default|{}|{}", op.kind_key(), op.input);
+    }
     format!("{}|{}|{}", sc.parsers[op.parser].key(), op.kind_key(), op.input)
 }
 
@@ -341,6 +344,10 @@ pub fn perform(parser: &CooklangParser, input: &str, op: &Op, faults: bool, dept
                 pull(&mut p);
             }
             out
+        }),
+        OpKind::ParseFree => guarded(|| {
+            let r = cooklang::parse(input);
+            fp_result(&r, input)
         }),
         OpKind::BuildAst => guarded(|| {
             let it = Adapter {
@@ -721,6 +728,15 @@ pub fn execute(rp: &RefPhase, sched: &SchedSpec, want_log: bool) -> (Vec<Violati
         clean.faults.clear();
         let o = perform(&env.parsers[op.parser], &env.sc.inputs[op.input], &clean, false, 0);
         check(&env, &clean, &o, "post", false);
+    }
+    // ... and on clones of the used parsers: a clone must not inherit anything that
+    // changes results (state shared through an Arc, a copied cache)
+    let clones: Vec<CooklangParser> = env.parsers.iter().map(|p| p.clone()).collect();
+    for op in env.sc.all_ops() {
+        let mut clean = op.clone();
+        clean.faults.clear();
+        let o = perform(&clones[op.parser], &env.sc.inputs[op.input], &clean, false, 0);
+        check(&env, &clean, &o, "post-clone", false);
     }
     let choices = record.lock().unwrap().clone();
     sim::with(|s| {
